@@ -25,9 +25,14 @@ pub struct ProductStats {
     pub capped: bool,
     /// tuples in which two or more top-priority components report simultaneously (reference ambiguity)
     pub ambiguous_groups: Vec<Vec<usize>>,
+    /// partial-lexing rules: buffer-end points evaluated / of which the pending item was determined
+    pub partial_points: usize,
+    pub partial_determined: usize,
 }
 
 struct Node {
+    /// kind of the best match recorded so far in this attempt (0 none, 1 skip, 2 token); tracked only for the partial rules
+    best: u8,
     g: u32,
     prev_early: u32,
     u8s: u8,
@@ -52,6 +57,19 @@ pub fn leaf_opt(x: Option<usize>) -> u32 {
 
 /// Run the product exploration. `prio` = priorities used for winner selection (captured ones).
 pub fn check(g: &GraphData, reference: &Reference, prio: &[usize], cap: usize) -> (Vec<Finding>, ProductStats) {
+    check_with(g, reference, prio, cap, None)
+}
+
+/// As `check`; with `partial = Some(has_look_around)` the partial-lexing rules (C07) are evaluated at every
+/// reachable tuple as well: the generated code, when the buffer of a partial lexer ends in graph state `g`,
+/// returns None ("need more input") iff `g` has any outgoing transition (byte or end-of-input) and commits
+/// what it has recorded otherwise. Against the reference: the pending item is *determined* at tuple `r` iff no
+/// feasible next byte keeps a longer match possible and the match revealed by the next unit is the same for
+/// every feasible next unit (end of input included).
+///   partial-commit-undetermined: `g` has no transition although the item is not determined;
+///   partial-not-eager: the item is determined but `g` still has transitions (definitions without look-around);
+///   with look-around one byte of slack: determined at `r`, edge on x to `t`, and `t` still has transitions.
+pub fn check_with(g: &GraphData, reference: &Reference, prio: &[usize], cap: usize, partial: Option<bool>) -> (Vec<Finding>, ProductStats) {
     let mut findings: Vec<Finding> = vec![];
     let mut stats = ProductStats::default();
     let dense = g.dense();
@@ -82,10 +100,10 @@ pub fn check(g: &GraphData, reference: &Reference, prio: &[usize], cap: usize) -
     }
 
     let mut nodes: Vec<Node> = vec![];
-    let mut index: HashMap<(u32, u32, u8, Vec<CState>), u32> = HashMap::new();
+    let mut index: HashMap<(u32, u32, u8, u8, Vec<CState>), u32> = HashMap::new();
     let r0 = reference.start();
-    nodes.push(Node { g: g.root as u32, prev_early: NONE, u8s: utf8::U_START, r: r0.clone(), parent: u32::MAX, via: 0 });
-    index.insert((g.root as u32, NONE, utf8::U_START, r0), 0);
+    nodes.push(Node { best: 0, g: g.root as u32, prev_early: NONE, u8s: utf8::U_START, r: r0.clone(), parent: u32::MAX, via: 0 });
+    index.insert((g.root as u32, NONE, utf8::U_START, 0, r0), 0);
 
     let winner = |r: &[CState], stats: &mut ProductStats| -> u32 {
         match reference.winner(r, prio) {
@@ -112,6 +130,14 @@ pub fn check(g: &GraphData, reference: &Reference, prio: &[usize], cap: usize) -
             (n.g as usize, n.prev_early, n.u8s, n.r.clone())
         };
         let gs = &g.states[gi];
+        // best match of the reference so far, this node's own report (ending before the last byte) included
+        let mut best = nodes[i].best;
+        if partial.is_some() && nodes[i].parent != u32::MAX {
+            let w = winner(&r, &mut stats);
+            if w != AMBIG && w != NONE {
+                best = if g.is_skip(w as usize) { 1 } else { 2 };
+            }
+        }
         let g_accept = leaf_opt(gs.accept);
         let g_early = leaf_opt(gs.early);
 
@@ -126,6 +152,75 @@ pub fn check(g: &GraphData, reference: &Reference, prio: &[usize], cap: usize) -
                 if w != NONE && g_accept != w && prev_early != w {
                     add(&mut findings, Finding { rule: "match-not-recorded", prop: "C01", path: path_of(&nodes, i), unit: None,
                         detail: format!("reference reports leaf {w} ending before the last byte; graph state {gi} records {} (late) and its predecessor {} (early)", show(g_accept), show(prev_early)) });
+                }
+            }
+        }
+
+        // ---- partial-lexing rules (C07): the buffer of a partial lexer ends exactly here
+        if let (Some(has_look), true) = (partial, nodes[i].parent != u32::MAX && (!g.utf8 || u8s == utf8::U_START)) {
+            let has_edges = |st: usize| !g.states[st].normal.is_empty() || g.states[st].eoi.is_some();
+            let mut longer = false;
+            let mut ambiguous = false;
+            let mut w_all: Option<u32> = None;
+            let mut w_same = true;
+            for unit in 0..=256usize {
+                let feasible = if unit == EOI { true } else if g.utf8 { utf8::step(u8s, unit as u8) != utf8::U_ERR } else { true };
+                if !feasible {
+                    continue;
+                }
+                reference.step(&r, unit, &mut tmp);
+                if unit != EOI && reference.crp(&tmp) {
+                    longer = true;
+                    break;
+                }
+                let w = winner(&tmp, &mut stats);
+                if w == AMBIG {
+                    ambiguous = true;
+                    break;
+                }
+                match w_all {
+                    None => w_all = Some(w),
+                    Some(prev) => {
+                        if prev != w {
+                            w_same = false;
+                        }
+                    }
+                }
+            }
+            if !ambiguous {
+                stats.partial_points += 1;
+                let determined = !longer && w_same;
+                if determined {
+                    stats.partial_determined += 1;
+                }
+                // the pending item: the match the next unit reveals, else the best recorded so far, else an error.
+                // Skips are not items: the property demands eagerness of items only.
+                let pending_is_skip = match w_all {
+                    Some(w) if w != NONE => g.is_skip(w as usize),
+                    _ => best == 1,
+                };
+                if !has_edges(gi) && !determined {
+                    add(&mut findings, Finding { rule: "partial-commit-undetermined", prop: "C07", path: path_of(&nodes, i), unit: None,
+                        detail: format!("graph state {gi} has no transition left, so a partial lexer whose buffer ends here commits the pending item, but the reference says a continuation can still change it ({})",
+                            if longer { "a longer match is possible" } else { "the match ending here depends on the next unit" }) });
+                }
+                if determined && has_edges(gi) && !has_look && !pending_is_skip {
+                    add(&mut findings, Finding { rule: "partial-not-eager", prop: "C07", path: path_of(&nodes, i), unit: None,
+                        detail: format!("the pending item is determined by this prefix whatever follows, but graph state {gi} still has transitions, so a partial lexer whose buffer ends here returns None instead of the item") });
+                }
+                if determined && has_look && !pending_is_skip {
+                    // one unit of slack: after any further single-byte character the item has to be out
+                    for x in 0..256usize {
+                        if g.utf8 && x >= 0x80 {
+                            break;
+                        }
+                        let t = dense.table[gi][x];
+                        if t != NONE && has_edges(t as usize) {
+                            add(&mut findings, Finding { rule: "partial-not-eager-one-byte-later", prop: "C07", path: path_of(&nodes, i), unit: Some(x),
+                                detail: format!("the pending item is determined by this prefix; after one more byte {x:#04x} the partial lexer is in graph state {t}, which still has transitions, and returns None again") });
+                            break;
+                        }
+                    }
                 }
             }
         }
@@ -199,11 +294,11 @@ pub fn check(g: &GraphData, reference: &Reference, prio: &[usize], cap: usize) -
                         detail: format!("graph state {gi} consumes byte {unit:#04x} into state {t} although no pattern can match any extension") });
                 }
                 let u8n = if g.utf8 { utf8::step(u8s, unit as u8) } else { utf8::U_START };
-                let key = (t, g_early, u8n, tmp.clone());
+                let key = (t, g_early, u8n, best, tmp.clone());
                 if !index.contains_key(&key) {
                     let idx = nodes.len() as u32;
                     index.insert(key, idx);
-                    nodes.push(Node { g: t, prev_early: g_early, u8s: u8n, r: tmp.clone(), parent: i as u32, via: unit as u8 });
+                    nodes.push(Node { best, g: t, prev_early: g_early, u8s: u8n, r: tmp.clone(), parent: i as u32, via: unit as u8 });
                 }
             }
         }
